@@ -44,6 +44,16 @@ def check(run):
             stem = "v1.0.0" if eco == "golang" else "1.0.0"
             texts = [stem] + [stem + "-" + i for i in IDS] + [stem + "-rc." + i for i in IDS] + [stem + "-" + i + ".1" for i in IDS[:8]]
             jobs.append({"k": "matrix", "eco": eco, "tag": "ids", "texts": texts, "part": [0] * len(texts)})
+    # B2: non-ASCII members - letters with irregular case mappings next to their ASCII relatives (vlib.UNI_GROUPS), as far as
+    # the real parser accepts them. maven and alpm are left to C07's families: their regular / irregular classification
+    # (KnownFindings.tla) reads the exact text.
+    accU = vlib.accept_filter(run, exe, {e: [t for t, _ in rnd.sample(U[e], min(len(U[e]), 400))] for e in U if e not in ("maven", "alpm")}, name="uniacc")
+    uni = vlib.unicode_families(run, exe, accU, rnd, per_eco=4 if quick else 16, size=6)
+    run.extra["non_ascii_families"] = {e: len(uni[e]) for e in uni if uni[e]}
+    for eco in sorted(uni):
+        texts = list(dict.fromkeys(x for fam in uni[eco] for x in fam))
+        if texts:
+            jobs.append({"k": "matrix", "eco": eco, "tag": "unicode", "texts": texts, "part": [0] * len(texts)})
     # B2: strings sampled from the regular expressions of the parsers themselves (shapes the grammar automata may lack)
     import regexgen
     for eco in sorted(U):
